@@ -1,13 +1,21 @@
-"""Translator for C18: the one structural fact of run_refurb the lifecycle model depends on.
+"""Translator for C18: the two facts about refurb/main.py the lifecycle model depends on.
 
-`ast` is used because the fact has no runtime face: is `mypy_timing_stats.unlink()` in a `finally`
-that covers everything from `build(...)` to `output_timing_stats(...)`, or is it a plain statement
-after `output_timing_stats(...)` (refurb 2.0.0)?  Any other shape is an extraction error.
+1. `ast` is used because the fact has no runtime face: is `mypy_timing_stats.unlink()` in a `finally`
+   that covers everything from `build(...)` to `output_timing_stats(...)`, or is it a plain statement
+   after `output_timing_stats(...)` (refurb 2.0.0)?  Any other shape is an extraction error.
+2. By execution: how does the loop of `output_timing_stats` cut a line of mypy's timing file —
+   `line.split()` with exactly two fields required (refurb 2.0.0) or `line.rsplit(maxsplit=1)` (module
+   names may contain whitespace)?  The function is called on probe files; an answer pattern that is
+   neither of the two is an extraction error.
 """
 
 from __future__ import annotations
 
 import ast
+import json
+from pathlib import Path
+
+from typing import Any
 
 from . import core, extract
 
@@ -21,8 +29,48 @@ def _calls(node: ast.AST) -> set[str]:
     return out
 
 
+# probe line -> what the mypy section must be (None = ValueError) under (split(), rsplit(maxsplit=1))
+PARSE_PROBES: list[tuple[str, Any, Any]] = [
+    ("a 1000", {"a": 1}, {"a": 1}),
+    ("a b 1000", None, {"a b": 1}),
+    ("  a  b   12000 ", None, {"  a  b": 12}),
+    ("a 1 2000", None, {"a 1": 2}),
+    ("\ta\t7999\xa0", {"a": 7}, {"\ta": 7}),
+    ("a", None, None),
+    ("a b", None, None),
+    ("", None, None),
+    (" 5 ", None, None),
+]
+
+
+def probe_timing_parse() -> bool:
+    """True iff output_timing_stats cuts lines like str.rsplit(maxsplit=1), False iff like str.split()"""
+    from refurb.main import output_timing_stats
+    from refurb.settings import Settings
+
+    got: list[Any] = []
+    with core.scratch("rv-c18x-") as d:
+        for i, (line, _, _) in enumerate(PARSE_PROBES):
+            t, o = Path(d) / f"t{i}.txt", Path(d) / f"o{i}.json"
+            t.write_text(line + "\n", encoding="utf8")
+            try:
+                output_timing_stats(Settings(timing_stats=o), 0.0, t, {})
+                got.append(json.loads(o.read_text())["mypy_time_spent_parsing_modules_in_ms"])
+            except ValueError:
+                got.append(None)
+    if got == [new for _, _, new in PARSE_PROBES]:
+        return True
+    if got == [old for _, old, _ in PARSE_PROBES]:
+        return False
+    raise RuntimeError(
+        "output_timing_stats cuts the lines of the timing file neither like line.split() nor like line.rsplit(maxsplit=1): "
+        + json.dumps([[line, g] for (line, _, _), g in zip(PARSE_PROBES, got)])
+    )
+
+
 @extract.register("LifecycleShape")
 def gen_lifecycle_shape() -> str:
+    rsplit = probe_timing_parse()
     src = (core.REPO / "refurb" / "main.py").read_text()
     fn = next(n for n in ast.parse(src).body if isinstance(n, ast.FunctionDef) and n.name == "run_refurb")
     body = fn.body
@@ -54,5 +102,9 @@ def gen_lifecycle_shape() -> str:
         + "/-- is `mypy_timing_stats.unlink()` in a `finally` clause that covers `build(...)` … `output_timing_stats(...)`\n"
         + "    (true), or a plain statement after `output_timing_stats(...)` (false: refurb 2.0.0)? -/\n"
         + f"def unlinkInFinally : Bool := {extract.lbool(in_finally)}\n\n"
+        + "/-- does the loop of `output_timing_stats` cut a line of mypy's timing file with `line.rsplit(maxsplit=1)`\n"
+        + "    (true: a module name may contain whitespace) or with `line.split()` (false: refurb 2.0.0)?\n"
+        + "    Found by calling the function on probe files. -/\n"
+        + f"def timingRsplit : Bool := {extract.lbool(rsplit)}\n\n"
         + "end RefurbVerif.Generated\n"
     )
